@@ -1,7 +1,7 @@
 """C17 logos-cli emits the stripped enum plus the derive's implementation."""
 import re
 
-from mirlib import (loop_depth, cond_of_switch, const_bytes, control_slice, controlling_switches, fields_of, find_calls, loc,
+from mirlib import (loop_depth, const_int, cond_of_switch, const_bytes, control_slice, controlling_switches, fields_of, find_calls, loc,
                     op_place, switches, trace)
 from props.rt import desc, ret_desc
 
@@ -193,6 +193,66 @@ def rule_attr_set(rep, crate):
             rep.viol(rid, 'attr-set:return', 'strip_attributes returns %s, expected the whole item re-rendered' % d[:100], loc(s))
 
 
+def bool_reach(m, start, known):
+    """Calls and `Err` constructions reachable from block `start` when the boolean locals in `known` have the given values;
+    the values are propagated through copies/moves and `Not`, and a switch on a known value is followed on its taken
+    edge only.  Returns (callee names, number of Err aggregates assigned towards the return place)."""
+    calls, errs = set(), 0
+    seen = set()
+    work = [(start, tuple(sorted(known.items())))]
+    while work:
+        b, envt = work.pop()
+        if (b, envt) in seen or b < 0:
+            continue
+        seen.add((b, envt))
+        env = dict(envt)
+        blk = m.blocks[b]
+        for st in blk['stmts']:
+            lhs = st['lhs']
+            rhs = st['rhs']
+            tgt = lhs['local'] if not lhs['proj'] else None
+            val = None
+            if rhs['rv'] == 'use':
+                p = op_place(rhs['a'])
+                if p is not None and not p['proj'] and p['local'] in env:
+                    val = env[p['local']]
+                elif rhs['a'].get('op') == 'const' and const_int(rhs['a']) in (0, 1) and 'bool' in str(rhs['a'].get('ty')):
+                    val = bool(const_int(rhs['a']))
+            elif rhs['rv'] == 'un' and rhs.get('uop') == 'Not':
+                p = op_place(rhs['a'])
+                if p is not None and not p['proj'] and p['local'] in env:
+                    val = not env[p['local']]
+            elif rhs['rv'] == 'agg' and rhs['kind'].get('variant') == 'Err' and 'Result' in str(rhs['kind'].get('adt')):
+                errs += 1
+            if tgt is not None:
+                if val is None:
+                    env.pop(tgt, None)
+                else:
+                    env[tgt] = val
+        t = blk['term']
+        nxt = []
+        if t['t'] == 'switch':
+            p = op_place(t['discr'])
+            if p is not None and not p['proj'] and p['local'] in env:
+                v = '1' if env[p['local']] else '0'
+                tg = {x: y for x, y in t['targets']}
+                nxt = [tg[v] if v in tg else tg['otherwise']]
+            else:
+                nxt = [y for _x, y in t['targets']]
+        elif t['t'] == 'call':
+            calls.add(m.callee_name(t))
+            if t['dest'] and not t['dest']['proj']:
+                env.pop(t['dest']['local'], None)
+            if t['target'] >= 0:
+                nxt = [t['target']]
+        else:
+            nxt = [x for x in m.succ(b)]
+        et = tuple(sorted(env.items()))
+        for n in nxt:
+            work.append((n, et))
+    return sorted(calls), errs
+
+
 def rule_cli(rep, crate):
     rid = rep.rule('M-C17c', 'logos_cli::codegen writes strip_attributes(tokens.clone()) and then generate(tokens) of the same parsed input, and nothing else, into the output', floor=1)
     f = crate.fns.get('codegen')
@@ -285,15 +345,18 @@ def rule_cli(rep, crate):
         rep.inst(rid, 'main:compare', detail=a)
         if 'fs_err::read_to_string' not in a[0] or 'output' not in [m.names.get(l) for l in m.slice(eqs[0][1]['args'][1], through_calls=True).locals]:
             rep.viol(rid, 'cli:compare-operands', 'eq_ignore_newlines compares %s' % a, loc(m, eqs[0][1]['line']))
-        # negation
-        used_neg = False
-        for bi, si, st in m.stmts():
-            if st['rhs']['rv'] == 'un' and st['rhs'].get('uop') == 'Not':
-                p = op_place(st['rhs']['a'])
-                if p and p['local'] == eqs[0][1]['dest']['local']:
-                    used_neg = True
-        if not used_neg:
-            rep.viol(rid, 'cli:compare-polarity', 'the result of eq_ignore_newlines is not negated into `changed`', loc(m))
+        # polarity, decided by propagating the two possible results of the comparison through copies, negations and the
+        # switches they control: when the file equals the generated code nothing is written and no error is returned;
+        # when it differs a write or the --check error is reachable
+        eqb, eqt = eqs[0]
+        for val in (True, False):
+            calls, errs = bool_reach(m, eqt['target'], {eqt['dest']['local']: val})
+            wr = [c for c in calls if FS_MODIFY.search(c)]
+            rep.inst(rid, 'main:polarity:%s' % ('equal' if val else 'differs'), detail=dict(writes=wr, errs=errs))
+            if val and (wr or errs):
+                rep.viol(rid, 'cli:compare-polarity', 'when the output file already holds the generated code main can still %s' % ('write the file' if wr else 'return an error'), loc(m))
+            if not val and not (wr or errs):
+                rep.viol(rid, 'cli:compare-polarity', 'when the output file differs from the generated code main neither writes it nor reports an error', loc(m))
     else:
         rep.viol(rid, 'cli:compare', 'expected one eq_ignore_newlines call in main', loc(m))
     e = crate.fns.get('eq_ignore_newlines')
